@@ -5,6 +5,7 @@ Key generation as encryption, part 8: the key wrappers (`glwe_switching_key_encr
 import Poulpy.Lemmas.KeyEntry
 import Poulpy.Lemmas.AutoMul
 import Poulpy.Lemmas.LweDecrypt
+import Poulpy.Lemmas.RingSwitch
 
 namespace CoreEnc
 open NormL Ks
@@ -16,6 +17,131 @@ theorem map_switchRing_same (n : Nat) (l : List Poly) (h : ∀ s ∈ l, s.length
   induction l with
   | nil => rfl
   | cons a r ih => simp [switchRing_same n a (h a (by simp)), ih (fun s hs => h s (by simp [hs]))]
+
+/-! ### secrets of smaller ring degree: `vec_znx_switch_ring` (`X ↦ X^(n/deg)`) -/
+
+theorem upsample_mem (gap : Nat) (a : Poly) (x : Int) (h : x ∈ znxUpsample gap a) : x ∈ a ∨ x = 0 := by
+  unfold znxUpsample at h
+  rw [List.mem_flatMap] at h
+  obtain ⟨y, hy, hx⟩ := h
+  rcases List.mem_cons.mp hx with rfl | hx
+  · exact Or.inl hy
+  · exact Or.inr (List.eq_of_mem_replicate hx)
+
+theorem upsample_norm1 (gap : Nat) (a : Poly) : norm1 (znxUpsample gap a) = norm1 a := by
+  unfold znxUpsample norm1
+  induction a with
+  | nil => rfl
+  | cons x r ih =>
+    simp only [List.flatMap_cons, List.map_append, List.sum_append, List.map_cons, List.sum_cons, List.map_replicate, abs_zero,
+      List.sum_replicate, smul_zero, add_zero]
+    rw [ih]
+
+/-- the embedding of a secret column of degree `d ∣ n` into the module's ring: `n` coefficients, same coefficient bound, same `‖·‖₁` -/
+theorem switchRing_embed (n : Nat) (hn : 0 < n) (s : Poly) (hd : 0 < s.length) (hdiv : s.length ∣ n) :
+    (znxSwitchRing n s).length = n ∧ (∀ B : Int, 0 ≤ B → (∀ x ∈ s, |x| ≤ B) → ∀ x ∈ znxSwitchRing n s, |x| ≤ B) ∧
+    norm1 (znxSwitchRing n s) = norm1 s := by
+  unfold znxSwitchRing
+  simp only
+  by_cases h1 : s.length = n
+  · simp only [h1, if_true]
+    exact ⟨trivial, fun B _ hB x hx => hB x hx, trivial⟩
+  · have hle : s.length ≤ n := Nat.le_of_dvd hn hdiv
+    have hlt : ¬ s.length > n := by omega
+    rw [if_neg h1, if_neg hlt]
+    have hg : 0 < n / s.length := Nat.div_pos hle hd
+    refine ⟨by rw [upsample_length _ hg, Nat.mul_div_cancel' hdiv], ?_, upsample_norm1 _ _⟩
+    intro B hB0 hB x hx
+    rcases upsample_mem _ _ _ hx with h | h
+    · exact hB x h
+    · rw [h]; simpa using hB0
+
+section
+variable {bits b n size kxe rankOut rankIn rank dnum dsize : Nat} {H E : Int}
+
+/-- **`glwe_switching_key_encrypt_sk`, secrets of any ring degree dividing `n`** (the API asserts only `deg ≤ n`): the key encrypts the
+EMBEDDED input secret (`znxSwitchRing n` of every column of `sk_in`) under the EMBEDDED output secret (every column of `sk_out` embedded,
+column `i` from column `i`), and records the two degrees -/
+theorem glweSwitchingKey_wellformed_deg (c : KeyCtx bits b n size kxe rankOut H E) (hd : 1 ≤ dsize)
+    (tmp0 : Col) (htl : tmp0.length = size) (htw : WF n tmp0)
+    (skIn skOut : List Poly) (hin : ∀ s ∈ skIn, 0 < s.length ∧ s.length ∣ n ∧ ∀ x ∈ s, |x| ≤ 2 ^ 62)
+    (hout : ∀ s ∈ skOut, 0 < s.length ∧ s.length ∣ n ∧ norm1 s * 2 ^ (b - 1) ≤ H)
+    (xa : List Nat) (es : List Poly) (hes : ErrOk n E es (rankIn * dnum))
+    (cells : List (Nat × List Col)) (xa' : List Nat) (es' : List Poly)
+    (h : Core.glweSwitchingKeyEncryptSk tmp0 bits b n size kxe rankOut rankIn dnum dsize skIn skOut xa es = some (cells, xa', es')) :
+    es' = es.drop (rankIn * dnum) ∧ skIn.length = rankIn ∧ skOut.length = rankOut ∧
+    KeyWellFormed n b dsize size kxe dnum rankIn (Core.keyMat n dnum rankIn (rankOut + 1) size cells) (skOut.map (znxSwitchRing n))
+      (fun i => ι n ((skIn.map (znxSwitchRing n)).getD i [])) (fun i r => es.getD (i * dnum + r) []) := by
+  unfold Core.glweSwitchingKeyEncryptSk at h
+  split at h
+  · simp at h
+  · have hl : skIn.length = rankIn ∧ skOut.length = rankOut := by
+      unfold Core.gglweEncryptSkT at h
+      split at h
+      · simp at h
+      · rename_i hne; simp only [List.length_map] at hne; omega
+    obtain ⟨h1, h2⟩ := gglweEncryptSk_wellformed c hd tmp0 htl htw (skOut.map (znxSwitchRing n))
+      (by
+        intro s hs
+        simp only [List.mem_map] at hs
+        obtain ⟨s0, h0, rfl⟩ := hs
+        rw [(switchRing_embed n c.hn s0 (hout s0 h0).1 (hout s0 h0).2.1).2.2]
+        exact (hout s0 h0).2.2)
+      (skIn.map (znxSwitchRing n))
+      (by
+        intro i hi
+        have hi' : i < skIn.length := by omega
+        rw [List.getD_eq_getElem?_getD, List.getElem?_map, List.getElem?_eq_getElem hi']
+        simp only [Option.map_some, Option.getD_some]
+        have hm := hin _ (List.getElem_mem hi')
+        obtain ⟨e1, e2, _⟩ := switchRing_embed n c.hn skIn[i] hm.1 hm.2.1
+        exact ⟨e1, e2 (2 ^ 62) (by norm_num) hm.2.2⟩)
+      xa es hes cells xa' es' h
+    refine ⟨h1, hl.1, hl.2, ?_⟩
+    simpa using h2
+
+/-- **`glwe_switching_key_compressed_encrypt_sk` + `decompress`, secrets of any ring degree dividing `n`**: the same statement, on the same
+embedded secrets, as the standard routine -/
+theorem glweSwitchingKeyCompressed_wellformed_deg (c : KeyCtx bits b n size kxe rankOut H E) (hd : 1 ≤ dsize)
+    (tmp0 : Col) (htl : tmp0.length = size) (htw : WF n tmp0)
+    (skIn skOut : List Poly) (hin : ∀ s ∈ skIn, 0 < s.length ∧ s.length ∣ n ∧ ∀ x ∈ s, |x| ≤ 2 ^ 62)
+    (hout : ∀ s ∈ skOut, 0 < s.length ∧ s.length ∣ n ∧ norm1 s * 2 ^ (b - 1) ≤ H)
+    (expand : List Nat → List Nat) (seedXa : List Nat) (es : List Poly) (hes : ErrOk n E es (rankIn * dnum))
+    (cc : List (Nat × Core.CellC)) (cells : List (Nat × List Col))
+    (h : Core.glweSwitchingKeyEncryptCompressedT tmp0 bits b n size kxe rankOut rankIn dnum dsize skIn skOut expand seedXa es = some cc)
+    (hdec : Core.decompressCells b n rankOut expand cc = some cells) :
+    skIn.length = rankIn ∧ skOut.length = rankOut ∧
+    Core.gglweEncryptCompressedT tmp0 bits b n size kxe rankOut rankIn dnum dsize (skIn.map (znxSwitchRing n)) (skOut.map (znxSwitchRing n))
+      expand seedXa es = some cc ∧
+    KeyWellFormed n b dsize size kxe dnum rankIn (Core.keyMat n dnum rankIn (rankOut + 1) size cells) (skOut.map (znxSwitchRing n))
+      (fun i => ι n ((skIn.map (znxSwitchRing n)).getD i [])) (fun i r => es.getD (i * dnum + r) []) := by
+  unfold Core.glweSwitchingKeyEncryptCompressedT at h
+  split at h
+  · simp at h
+  · split at h
+    · simp at h
+    · rename_i hne
+      have hl : skIn.length = rankIn ∧ skOut.length = rankOut := by omega
+      refine ⟨hl.1, hl.2, h, ?_⟩
+      exact gglweCompressed_wellformed c hd tmp0 htl htw (skOut.map (znxSwitchRing n)) (by simp [hl.2])
+        (by
+          intro s hs
+          simp only [List.mem_map] at hs
+          obtain ⟨s0, h0, rfl⟩ := hs
+          rw [(switchRing_embed n c.hn s0 (hout s0 h0).1 (hout s0 h0).2.1).2.2]
+          exact (hout s0 h0).2.2)
+        (skIn.map (znxSwitchRing n))
+        (by
+          intro i hi
+          have hi' : i < skIn.length := by omega
+          rw [List.getD_eq_getElem?_getD, List.getElem?_map, List.getElem?_eq_getElem hi']
+          simp only [Option.map_some, Option.getD_some]
+          have hm := hin _ (List.getElem_mem hi')
+          obtain ⟨e1, e2, _⟩ := switchRing_embed n c.hn skIn[i] hm.1 hm.2.1
+          exact ⟨e1, e2 (2 ^ 62) (by norm_num) hm.2.2⟩)
+        expand seedXa es hes cc cells h hdec
+
+end
 
 section
 variable {bits b n size kxe rankOut rankIn rank dnum dsize : Nat} {H E : Int}
